@@ -200,26 +200,24 @@ func readCell(r core.StateReader, k stateKey) (felt.Felt, string) {
 	return v, errClass(err)
 }
 
-// stateObs opens a state reader on node and twin the same way and compares every cell.
+// stateObs opens a state reader on the node and compares every cell with what the twin read the same way.
 // class: ok (reader handed out, every cell equals the twin's), notfound/pruned/err (no reader),
 // wrong (a cell differs). marker = what the node read for the marker slot (nil if no reader).
 func stateObs(open func(bc *blockchain.Blockchain) (core.StateReader, blockchain.StateCloser, error),
-	node, twin *blockchain.Blockchain, keys []stateKey,
+	node *blockchain.Blockchain, twin twinStateRes, keys []stateKey,
 ) (class string, marker *felt.Felt, detail string) {
 	nr, nclose, nerr := open(node)
 	if nerr != nil {
 		return errClass(nerr), nil, ""
 	}
 	defer func() { _ = nclose() }()
-	tr, tclose, terr := open(twin)
-	if terr != nil {
-		return "wrong", nil, "node hands out a state reader where the unpruned twin answers " + errClass(terr)
+	if twin.err != "" {
+		return "wrong", nil, "node hands out a state reader where the unpruned twin answers " + twin.err
 	}
-	defer func() { _ = tclose() }()
 	class = "ok"
-	for _, k := range keys {
+	for i, k := range keys {
 		nv, ne := readCell(nr, k)
-		tv, te := readCell(tr, k)
+		tv, te := twin.cells[i].v, twin.cells[i].e
 		if k.Kind == "storage" && k.Addr.Equal(&markerAddr) && k.Slot.Equal(&markerSlot) && ne == "ok" {
 			m := nv
 			marker = &m
@@ -237,7 +235,7 @@ func stateObs(open func(bc *blockchain.Blockchain) (core.StateReader, blockchain
 
 // runPair evaluates one Reader call on node and twin. class: ok = no error and the value equals the
 // twin's; wrong = no error but the value differs (or the twin has no such data); else the error class.
-func runPair(nc, tc qcall) (class, detail string) {
+func runPair(nc qcall, twin twinQRes) (class, detail string) {
 	var nv any
 	var nerr error
 	perr, panicked, _ := lib.Try(func() error {
@@ -250,7 +248,7 @@ func runPair(nc, tc qcall) (class, detail string) {
 	if nerr != nil {
 		return errClass(nerr), ""
 	}
-	tv, terr := tc.Do()
+	tv, terr := twin.v, twin.err
 	if terr != nil {
 		return "wrong", "node answers where the unpruned twin answers " + errClass(terr)
 	}
